@@ -343,7 +343,7 @@ impl Version {
         if input.len() > MAX_LENGTH {
             return Err(SemverError {
                 input: input.into(),
-                span: (input.len() - 1, 0).into(),
+                span: (input.len(), 0).into(),
                 kind: SemverErrorKind::MaxLengthError,
             });
         }
